@@ -43,10 +43,15 @@ type tierPlan struct {
 
 func planFor(tier string) tierPlan {
 	all := []int{stFresh, stOpens, stClosedMiddle, stRenumbered, stReaddir}
-	if tier == "thorough" {
-		return tierPlan{5, 3, []engPlan{{"interpreter", all, nil}, {"compiler", all, all}}}
+	env := []int{}
+	if envStatesEnabled {
+		env = []int{stPreMissing, stPreRemoved, stPreIsFile}
 	}
-	return tierPlan{4, 2, []engPlan{{"interpreter", all, nil}, {"compiler", []int{stOpens, stRenumbered}, []int{stOpens}}}}
+	with := func(a, b []int) []int { return append(append([]int{}, a...), b...) }
+	if tier == "thorough" {
+		return tierPlan{5, 3, []engPlan{{"interpreter", with(all, env), nil}, {"compiler", with(all, env), all}}}
+	}
+	return tierPlan{4, 2, []engPlan{{"interpreter", with(all, env), nil}, {"compiler", []int{stOpens, stRenumbered}, []int{stOpens}}}}
 }
 
 type batch struct {
